@@ -123,6 +123,17 @@ class DownloadOutputManager:
             },
         )
 
+    def get_io_write_tasks(self, fileobj, data, offset):
+        """Get the IO write tasks to run immediately for incoming data
+
+        This is used when a single thread downloads the object and writes
+        the data itself instead of going through the IO executor. The returned
+        tasks must be run by the caller in the order provided.
+
+        :returns: A list of IO tasks that write the data
+        """
+        return [self.get_io_write_task(fileobj, data, offset)]
+
     def get_final_io_task(self):
         """Get the final io task to complete the download
 
@@ -239,6 +250,16 @@ class DownloadNonSeekableOutputManager(DownloadOutputManager):
                     fileobj,
                 )
                 super().queue_file_io_task(fileobj, data, offset)
+
+    def get_io_write_tasks(self, fileobj, data, offset):
+        # The stream cannot seek, so data that is delivered again when a
+        # request is retried must not be written a second time.
+        with self._io_submit_lock:
+            writes = self._defer_queue.request_writes(offset, data)
+            return [
+                self.get_io_write_task(fileobj, write['data'], write['offset'])
+                for write in writes
+            ]
 
     def get_io_write_task(self, fileobj, data, offset):
         return IOStreamingWriteTask(
@@ -625,8 +646,11 @@ class ImmediatelyWriteIOGetObjectTask(GetObjectTask):
     """
 
     def _handle_io(self, download_output_manager, fileobj, chunk, index):
-        task = download_output_manager.get_io_write_task(fileobj, chunk, index)
-        task()
+        tasks = download_output_manager.get_io_write_tasks(
+            fileobj, chunk, index
+        )
+        for task in tasks:
+            task()
 
 
 class IOWriteTask(Task):
